@@ -148,11 +148,16 @@ Section Mesh.
     {| pts := pts A ++ select [] flt (pts B);
        cells := merge_assoc (fun r1 r2 => r1 ++ remap pm r2) (fun r1 => r1) (remap pm) (cells A) (cells B);
        pdata := merge_assoc (fun r1 r2 => r1 ++ select zero flt r2)
-                            (fun r1 => r1 ++ repeat zero n2)                          (* :289-297 *)
+                            (fun r1 => r1 ++ repeat zero (length flt))                (* :289-295, as repaired by the fix of F-C08b *)
                             (fun r2 => repeat zero (length (pts A)) ++ select zero flt r2)   (* :298-307 *)
                             (pdata A) (pdata B);
        cdata := merge_assoc (merge_assoc (fun r1 r2 => r1 ++ r2) (fun r => r) (fun r => r))
                             (fun x => x) (fun x => x) (cdata A) (cdata B) |}.
+
+  (* number of zero rows appended for a point field that only the first piece carries: pinned `len(fields2.domain.points)`
+     (finding F-C08b: the field then has more rows than the merged data set has points), repaired `len(points2_filter)` *)
+  Definition zero_rows_pinned (A B : mf) : nat := length (pts B).
+  Definition zero_rows_fixed (A B : mf) : nat := length (filter_ext (length (pts B)) (dup_map (pts B) (pts A))).
 
   (* _merge as pinned: `if len(points2_filter) == 0: return fields1` (:247-248) — the second piece is dropped
      altogether, with its cells and cell data, when it contributes no new point (finding F-C06a) *)
@@ -187,5 +192,5 @@ End Mesh.
 
 Arguments pts {V}. Arguments cells {V}. Arguments pdata {V}. Arguments cdata {V}.
 Arguments merge2_fixed {V}. Arguments merge2 {V}. Arguments merge_all {V}. Arguments merge_all_fixed {V}.
-Arguments merge_all_with {V}.
+Arguments merge_all_with {V}. Arguments zero_rows_pinned {V}. Arguments zero_rows_fixed {V}.
 Arguments ccells {V}. Arguments cfield {V}. Arguments pfield {V}. Arguments wf {V}.
